@@ -20,8 +20,8 @@ BUDGET = {"quick": 240, "thorough": 3000}
 def bounds(tier):
     return {"names": NAMES, "first_lines": len(firsts(0)), "continuation_shapes": len(conts(0)),
             "continuation_lines": "0..2" if tier == "quick" else "0..3",
-            "two_field_paragraphs": "every 7th x every 11th value, two name pairs" if tier == "quick"
-            else "every 5th x every 7th value, two name pairs",
+            "two_field_paragraphs": "every 7th x every 11th value (of the 584 with <= 2 continuation lines), two name pairs" if tier == "quick"
+            else "every 3rd x every 5th value (of the 584 with <= 2 continuation lines), two name pairs, every single comment placement",
             "documents": "all pairs over a 20-paragraph pool and triples over 6, separators of 1 and 2 blank lines",
             "input_forms": ["str", "bytes", "lines with newlines", "lines without", "StringIO", "BytesIO"],
             "comment_placements": "none / each single line boundary / all boundaries",
@@ -217,8 +217,10 @@ def check_multi(pars, sep):
 
 
 def two_field_pars(tier, seed):
-    vals = all_values(tier, seed)
-    a, b = (7, 11) if tier == "quick" else (5, 7)
+    # both tiers draw from the values with <= 2 continuation lines (584); thorough takes a denser grid and, in
+    # run_unit, every single comment placement
+    vals = all_values("quick", seed)
+    a, b = (7, 11) if tier == "quick" else (3, 5)
     out = []
     for v in vals[::a]:
         for w in vals[::b]:
